@@ -62,6 +62,9 @@ pub struct Blk {
     /// transaction source: 0 = OnceTransactionsSource, 1 = greedy (ignores all limits), 2 = honest
     #[serde(default)]
     pub src: u8,
+    /// additionally hand in the first `bulk` bulk transfers of the universe
+    #[serde(default)]
+    pub bulk: u32,
 }
 
 #[derive(Clone, Default)]
@@ -125,7 +128,9 @@ impl ExecSubject {
         }
     }
     fn txs_of(&self, op: &Blk) -> Vec<Transaction> {
-        op.txs.iter().map(|i| self.u.templates[*i as usize].tx.clone()).collect()
+        let mut v: Vec<Transaction> = op.txs.iter().map(|i| self.u.templates[*i as usize].tx.clone()).collect();
+        v.extend(self.u.bulk.iter().take(op.bulk as usize).cloned());
+        v
     }
 }
 
@@ -199,7 +204,9 @@ impl Subject for ExecSubject {
     }
 
     fn label(&self, op: &Blk) -> String {
-        if op.txs.is_empty() {
+        if op.bulk > 0 {
+            format!("bulk{}", op.bulk)
+        } else if op.txs.is_empty() {
             "empty".to_string()
         } else {
             op.txs.iter().map(|i| self.u.templates[*i as usize].name).collect::<Vec<_>>().join("+")
@@ -258,7 +265,7 @@ impl Subject for ExecSubject {
 
         match self.prop {
             Prop::C01 => self.c01(w, &res, &cl)?,
-            Prop::C03 => self.c03(w, op, &res)?,
+            Prop::C03 => self.c03(w, op, &res, &cl)?,
             Prop::C04 => self.c04(w, op, &t, &res, &cl)?,
             _ => {}
         }
@@ -751,7 +758,7 @@ impl ExecSubject {
         Ok(())
     }
 
-    fn c03(&self, w: &World, op: &Blk, res: &ExecutionResult) -> Result<(), Violation> {
+    fn c03(&self, w: &World, op: &Blk, res: &ExecutionResult, cl: &ChangeList) -> Result<(), Violation> {
         let u = &self.u;
         let block = &res.block;
         self.check_mint_rules(block, &res.tx_status, Some(op.gp), "produced")?;
@@ -802,6 +809,42 @@ impl ExecSubject {
             oc.state_root = Bytes32::from([9u8; 32]);
             mutants.push(("output-root", with_mint(mk(TxPointer::new(height, idx), mint.input_contract().clone(), oc, amt, *mint.mint_asset_id(), gp))));
         }
+        // amount changes with a matching output balance root: the mint stays self-consistent, so
+        // only the amount rule itself can reject it
+        if mint.input_contract().contract_id != ContractId::zeroed() {
+            use sha2::{Digest, Sha256};
+            let base = *u.cp.base_asset_id();
+            let key: Vec<u8> = fuel_core_storage::ContractsAssetKey::new(&mint.input_contract().contract_id, &base).as_ref().to_vec();
+            let mut post: Dump = (**w.dump()).clone();
+            apply_changes(&mut post, cl);
+            let after = post.get(&(Column::ContractsAssets.as_u32(), key)).map(|v| u64::from_be_bytes(v[..8].try_into().unwrap_or([0; 8])));
+            if let Some(after) = after {
+                let before = after.wrapping_sub(amt);
+                for (what, a2) in [("amount+1-consistent", amt.wrapping_add(1)), ("amount-1-consistent", amt.wrapping_sub(1))] {
+                    let mut h = Sha256::new();
+                    h.update(base);
+                    h.update([1u8]);
+                    h.update(before.wrapping_add(a2).to_be_bytes());
+                    let root: [u8; 32] = h.finalize().into();
+                    let mut oc = *mint.output_contract();
+                    // sanity: the same formula must reproduce the root of the produced mint
+                    let mut h0 = Sha256::new();
+                    h0.update(base);
+                    h0.update([1u8]);
+                    h0.update(after.to_be_bytes());
+                    let root0: [u8; 32] = h0.finalize().into();
+                    if oc.balance_root != Bytes32::from(root0) {
+                        self.fact("c03:balance-root-formula-not-applicable");
+                        continue;
+                    }
+                    oc.balance_root = Bytes32::from(root);
+                    mutants.push((what, with_mint(mk(TxPointer::new(height, idx), mint.input_contract().clone(), oc, a2, *mint.mint_asset_id(), gp))));
+                }
+            }
+        }
+        if op.bulk > 0 {
+            mutants.truncate(2);
+        }
         for (what, txs) in mutants {
             let blk = rebuild_block(block, txs, &res.tx_status).map_err(|e| viol("craft-failed", e))?;
             let ex = executor(u, w.db());
@@ -820,6 +863,9 @@ impl ExecSubject {
             SRC_ONCE => "hostile-source:once:",
             _ => "",
         };
+        if n == fuel_core_executor::executor::max_tx_count() as usize + 1 {
+            self.fact("c03:count-limit-reached");
+        }
         if n > fuel_core_executor::executor::max_tx_count() as usize + 1 {
             return Err(viol(format!("{src}block-tx-count-exceeds-limit"), format!("{n} transactions in the produced block")));
         }
